@@ -53,6 +53,9 @@ pub enum Ty {
     BigDecimal,
     /// desert::DeduplicatedString
     Dedup,
+    /// a u32 carried as a bare var-u32 (user codecs do this through BinaryOutput::write_var_u32, e.g. the
+    /// StackTraceElement codec of the golden test)
+    VarU32,
     // ---- serialize-only shapes (no BinaryDeserializer impl exists) ----
     Slice(Arc<Ty>),
     StrRef,
@@ -328,6 +331,7 @@ impl Ty {
             BigInt => "BigInt".into(),
             BigDecimal => "BigDecimal".into(),
             Dedup => "DS".into(),
+            VarU32 => "VarU32".into(),
             Slice(a) => format!("[{}]", a.render()),
             StrRef => "str".into(),
             Ref(a) => format!("&{}", a.render()),
